@@ -2,7 +2,7 @@ S = "src/aioftp/server.py"; C = "src/aioftp/client.py"; K = "src/aioftp/common.p
 M = [
 ("n01_read_slice", "C01", K, "        return await self.reader.read(count)", "        return (await self.reader.read(count))[:count]", "C01.THRU"),
 ("n01_seek_plus1", "C01", S, "                    await file_out.seek(connection.restart_offset)", "                    await file_out.seek(connection.restart_offset + 1)", "C01.SEEK"),
-("n01_list_skip_dirs", "C01/C07", S, '''                    s = await self.build_mlsx_string(connection, path)
+("n01_list_skip_dirs", "C07", S, '''                    s = await self.build_mlsx_string(connection, path)
                     b = (s + END_OF_LINE).encode(encoding=self.encoding)
                     await stream.write(b)''', '''                    s = await self.build_mlsx_string(connection, path)
                     if "Type=dir" in s:
